@@ -8,6 +8,7 @@ import Nlmodel.Proofs.Lemmas.ManagedInv
 import Nlmodel.Proofs.Lemmas.TypeInv
 import Nlmodel.Model.Pipeline
 import Nlmodel.Proofs.Lemmas.Ledger
+import Nlmodel.Proofs.Lemmas.CompileMemExample
 namespace Nl
 namespace C04
 open GC
@@ -198,6 +199,51 @@ theorem C04_run_ledger (bc : Bytecode) (n : Nat) :
     | .budget s => (∀ a, s.mem.heap.isLive a = false) ∧ s.mem.managed = []
     | .fault _ => True :=
   Ledger.run_ledger bc n
+
+/-! ### the COMPILE phase (session 7, `Model/CompileMem.lean`, `Lemmas/CompileMem*.lean`)
+
+`VM.start` pretends that the constant boxes (float and string literals) are allocated when the run starts.  The real compiler
+allocates a box per literal OCCURRENCE while compiling, with its own collector; `add_constant` re-uses an equal pool entry (the fresh
+box then stays with the compiler's collector: a duplicate); on success the pool boxes are untraced and handed to the `Bytecode`, the
+run's collector registers them (`maybe_trace`) and releases them when the run ends; on failure `gc.destroy()` releases everything;
+duplicates wait for the next failure or for the drop of the compiler.  `Model/CompileMem.lean` models exactly that on the heap/collector
+model of `Model/GC.lean`; the occurrence list is proved faithful to the code generator for the WHOLE language. -/
+
+/-- the float/string literal occurrences, in the order the code generator visits them, fed to the compile-phase memory machine,
+    produce exactly the float/string part of the constant pool the compiler model emits (same entries, same order) -/
+theorem C04_compile_occurrences_faithful (p : RBlock) (bc : Bytecode) (h : compileR p = .ok bc) :
+    (CompileMem.compileAlloc (CompileMem.occB p)).pool.map Prod.fst = bc.consts.filter CompileMem.isHeap :=
+  CompileMem.occ_faithful_compileR p bc h
+
+/-- SUCCESS: after compiling any occurrence list, handing the pool over and dropping the compiler, every box allocated during
+    compilation is either a pool box — live, unmanaged by the compiler, one per pool entry, pairwise distinct — or a duplicate,
+    freed exactly once by the drop (each `free` hits a live cell); nothing else is live; the run's collector then manages exactly
+    the pool boxes and its destruction frees each exactly once, after which no cell is live (`CompileMem.SuccessLedger`) -/
+theorem C04_compile_phase_success (occ : List Const) :
+    CompileMem.SuccessLedger occ (CompileMem.compileAlloc occ) (CompileMem.handOver (CompileMem.compileAlloc occ))
+      (CompileMem.dropCompiler (CompileMem.handOver (CompileMem.compileAlloc occ)))
+      (CompileMem.registerPool (CompileMem.dropCompiler (CompileMem.handOver (CompileMem.compileAlloc occ))).mem.heap (CompileMem.compileAlloc occ).pool) :=
+  CompileMem.compile_ledger_success occ
+
+/-- FAILURE after the k-th occurrence, for EVERY k: no cell stays live, every allocated box is freed exactly once, each `free`
+    hits a live cell, the compiler keeps nothing -/
+theorem C04_compile_phase_failure (occ : List Const) (k : Nat) :
+    let w1 := CompileMem.compileAlloc (occ.take k)
+    let w := CompileMem.failAfter k occ {}
+    w.mem.heap.cells.size = ((occ.take k).filter CompileMem.isHeap).length ∧
+    (∀ a, w.mem.heap.get a = .freed) ∧ w.log.Nodup ∧
+    (∀ a, a ∈ w.log ↔ a < w.mem.heap.cells.size) ∧
+    w.log = w1.mem.managed ∧ CompileMem.FreesLive w1.mem ∧
+    w.mem.managed = [] ∧ w.pool = [] ∧ w.dups = [] ∧ w.handed = [] :=
+  CompileMem.compile_ledger_failure occ k
+
+/-- a RETAINED compiler: over any sequence of compilations, each succeeding or failing after k occurrences, duplicates are carried
+    by a success, released (once) by the next failure or by the final drop; at the end every box is either handed over (live, never
+    freed by the compiler) or in the log of frees exactly once (`CompileMem.SessionLedger`) -/
+theorem C04_compile_phase_session (h0 : Heap) (cs : List CompileMem.Comp) :
+    CompileMem.SessionLedger h0 cs { mem := { heap := h0, managed := [] } }
+      (CompileMem.dropCompiler (CompileMem.runSession cs { mem := { heap := h0, managed := [] } })) :=
+  CompileMem.compile_ledger_session h0 cs
 
 end C04
 end Nl
